@@ -11,3 +11,5 @@ OBS.append(Ob(['C12', 'C10', 'C01', 'C13', 'C07'], 'pnum_scan_n5', 'numcut', 'ha
               desc='parseNumber on every string of 5 bytes: grammar, exact (mantissa, exponent), float-vs-double decision, overflow shortcut', bound='all 2^40 5-byte strings (NUL anywhere)'))
 OBS.append(Ob(['C12'], 'pnum_8digits', 'numcut', 'harness/pnum.c', 'h_pnum_8digits', unwind=12, cap=300, hunwind=12,
               desc='literals D.DDDDDDD (8 significant digits): exact (mantissa, exponent) and double-precision path', bound='all 9*10^7 such literals'))
+OBS.append(Ob(['C12'], 'pnum_long_negexp', 'numcut', 'harness/pnum_big.c', 'h_pnum_long_negexp', unwind=30, cap=600, hunwind=30,
+              desc='25-digit mantissa with exponent e-DDD: the zero shortcut only below the double range; scaled pair of the right magnitude', bound='all such literals (10^28)'))
